@@ -153,9 +153,10 @@ Theorem C01_bind_time_shape :
    "inner_indent = outer_indent + _INDENT";
    "outer_arg_str = ', '.join(params[0])";
    "def_str = '%sdef %s(%s):\n' % (outer_indent, inner_name, outer_arg_str)";
-   "body_str = build_chain_str(funcs[1:], params[1:], inner_name, params_sofar, level + 1)";
-   "htb_str = '%s__traceback_hide__ = True\n' % (inner_indent,)";
-   "return_str = '%sreturn funcs[%s](%s)\n' % (inner_indent, level, inner_args)";
+   "hide_tb = '__traceback_hide__' not in params_sofar";
+   "body_str = build_chain_str(funcs[1:], params[1:], inner_name, params_sofar, level + 1, funcs_name=funcs_name)";
+   "htb_str = '%s__traceback_hide__ = True\n' % (inner_indent,) if hide_tb else ''";
+   "return_str = '%sreturn %s[%s](%s)\n' % (inner_indent, funcs_name, level, inner_args)";
    "return ''.join([def_str, body_str, htb_str + return_str])"] /\
   SK_MAKE_CHAIN =
   ["funcs = list(funcs)";
